@@ -1,23 +1,27 @@
 import NeumannModel.RelTx.Model
 /-
-  C09 — `tx_update` below statement granularity.
+  C09 — `tx_update` / `tx_delete` below statement granularity.
 
   The code of `tx_update` (and `tx_delete`) runs in two halves with NO lock held in between:
 
     1. phase check, schema and SET-list validation, `scan_all` + filter: the matching rows are
-       collected TOGETHER WITH THE VALUES READ (`matching_rows: Vec<(id, row, old_slab_values)>`);
-    2. `try_lock` on the collected ids, then per collected row: undo entry and index changes
-       computed FROM THE COLLECTED VALUES, and `update_row` on the slab row as it is now.
+       collected (`matching_rows: Vec<(id, row, old_slab_values)>`);
+    2. `try_lock` on the collected ids; then — fcb86137, `reread_locked_rows` — the locked rows are READ
+       AGAIN: a row that is gone or no longer satisfies the condition is left alone, and for the others
+       the undo entry, the index changes and the overwrite are computed from the row AS IT IS NOW that
+       the lock is held.
 
   `Model.txUpdate` is the two halves run back to back (one atomic step; that is what the
   statement-level streams exercise).  Here the second half is a function of an arbitrary earlier
-  scan result, so that another transaction's statements can be placed between the halves:
+  scan result, so that another transaction's statements can be placed between the halves (the
+  harness does that on the real engine through the yield sites `relational.tx_update.after_scan` /
+  `relational.tx_delete.after_scan`, 23d1986f):
 
-    * `txUpdateApplyStale` — the second half AS THE CODE IS (uses the scanned values);
-    * `txUpdateApplyFixed` — the second half of the proposed repair
-      (`/verif/proposed/C09-tx-write-rereads-rows-after-lock.diff`): once the locks are held the
-      scanned rows are read again; a row that is gone or no longer satisfies the condition is left
-      alone, the others are handled by the ordinary per-row body on their CURRENT values.
+    * `txUpdateApply` / `txDeleteApply` — the second half AS THE CODE IS (only the ids of the earlier
+      scan matter);
+    * `txUpdateApplyOld` / `txDeleteApplyOld` — the second half BEFORE fcb86137: undo entry, index
+      changes and overwrite were computed from the values the scan had read BEFORE the lock.  Kept for
+      the regression witnesses `scan_before_lock_*_witness` only.
 
   Import-free (only the model), total, computable.
 -/
@@ -26,11 +30,11 @@ namespace Neumann.RelTx
 /-- what the first half hands to the second: `(slab id, values read)` of every matching live row -/
 def txScan (T : Table) (cond : Cond) : List (Nat × List Val) := scanAnswer T cond
 
-/-- per-row body of the second half AS THE CODE IS.  `old` = the values the scan read.  The undo
+/-- per-row body of the second half BEFORE fcb86137.  `old` = the values the scan read.  The undo
     entry and the index changes are built from `old`; `slab.update_row` then overwrites the named
     columns of the row as it is NOW and fails (`RowNotFound` → `StorageError`, the statement stops
     there) when the row has been deleted meanwhile.  The flag is `false` once that has happened. -/
-def updateRowStale (tx t : Nat) (upd : List (Nat × Val)) (acc : State × Bool) (p : Nat × List Val) : State × Bool :=
+def updateRowOld (tx t : Nat) (upd : List (Nat × Val)) (acc : State × Bool) (p : Nat × List Val) : State × Bool :=
   if !acc.2 then acc
   else
     let s := acc.1
@@ -56,21 +60,21 @@ def updateRowStale (tx t : Nat) (upd : List (Nat × Val)) (acc : State × Bool) 
         else (setTable s1 t { T with hashE := hashE, btreeE := btreeE }, false)
       | none => (setTable s1 t { T with hashE := hashE, btreeE := btreeE }, false)
 
-/-- second half of `tx_update` AS THE CODE IS, for an arbitrary earlier scan result.
+/-- second half of `tx_update` BEFORE fcb86137, for an arbitrary earlier scan result.
     Answer: `some n` = `Ok(n)`, `none` = `StorageError` in the middle of the loop. -/
-def txUpdateApplyStale (s : State) (tx t : Nat) (scanned : List (Nat × List Val)) (upd : List (Nat × Val)) :
+def txUpdateApplyOld (s : State) (tx t : Nat) (scanned : List (Nat × List Val)) (upd : List (Nat × Val)) :
     State × Option (Option Nat) :=
   let ids := scanned.map (·.1)
   if lockBlocked s tx t ids then (s, none)          -- LockConflict: nothing happened
   else
     let s1 := if ids.isEmpty then s else lockAll s tx t ids
-    let r := scanned.foldl (updateRowStale tx t upd) (s1, true)
+    let r := scanned.foldl (updateRowOld tx t upd) (s1, true)
     (r.1, some (if r.2 then some scanned.length else none))
 
-/-- per-row body of the second half of `tx_delete` AS THE CODE IS: undo entry and index removals from the
+/-- per-row body of the second half of `tx_delete` BEFORE fcb86137: undo entry and index removals from the
     values the scan read; `slab.delete` answers `Ok(false)` — no error — when the row is already dead, so
     the statement goes on and the undo entry stays. -/
-def deleteRowStale (tx t : Nat) (s : State) (p : Nat × List Val) : State :=
+def deleteRowOld (tx t : Nat) (s : State) (p : Nat × List Val) : State :=
   let i := p.1
   let old := p.2
   match s.tables t with
@@ -83,14 +87,14 @@ def deleteRowStale (tx t : Nat) (s : State) (p : Nat × List Val) : State :=
       btreeE := T.btreeOn.foldl (fun es c => idxRemove (c, val old c, i) es) T.btreeE
       rows := slabDelete T i }
 
-/-- second half of `tx_delete` AS THE CODE IS, for an arbitrary earlier scan result
+/-- second half of `tx_delete` BEFORE fcb86137, for an arbitrary earlier scan result
     (`none` = LockConflict, nothing happened) -/
-def txDeleteApplyStale (s : State) (tx t : Nat) (scanned : List (Nat × List Val)) : State × Option Nat :=
+def txDeleteApplyOld (s : State) (tx t : Nat) (scanned : List (Nat × List Val)) : State × Option Nat :=
   let ids := scanned.map (·.1)
   if lockBlocked s tx t ids then (s, none)
   else
     let s1 := if ids.isEmpty then s else lockAll s tx t ids
-    (scanned.foldl (deleteRowStale tx t) s1, some scanned.length)
+    (scanned.foldl (deleteRowOld tx t) s1, some scanned.length)
 
 /-- the row still exists, is alive and satisfies the condition -/
 def stillMatches (T : Table) (cond : Cond) (i : Nat) : Bool :=
@@ -98,10 +102,11 @@ def stillMatches (T : Table) (cond : Cond) (i : Nat) : Bool :=
   | some r => r.alive && evalCond cond i r.vals
   | none => false
 
-/-- second half of `tx_update` WITH THE REPAIR: lock the scanned ids, read those rows again, keep the
-    ones that still match, and run the ordinary per-row body (`updateRow`: undo entry and index
-    changes from the row's current values) on them. -/
-def txUpdateApplyFixed (s : State) (tx t : Nat) (cond : Cond) (ids : List Nat) (upd : List (Nat × Val)) : State × Res :=
+/-- second half of `tx_update` AS THE CODE IS (fcb86137): lock the scanned ids (`try_lock` is skipped for an
+    empty list), read those rows again (`reread_locked_rows`: `slab.get` + `Condition::evaluate`), keep the
+    ones that still match, and run the ordinary per-row body (`updateRow`: undo entry and index changes from
+    the row's current values) on them.  Answer: the number of rows that still matched. -/
+def txUpdateApply (s : State) (tx t : Nat) (cond : Cond) (ids : List Nat) (upd : List (Nat × Val)) : State × Res :=
   match s.tables t with
   | none => (s, .err .tableNotFound)
   | some T =>
@@ -111,8 +116,8 @@ def txUpdateApplyFixed (s : State) (tx t : Nat) (cond : Cond) (ids : List Nat) (
       let rows := ids.filter (stillMatches T cond)
       (rows.foldl (updateRow tx t upd) s1, .okN rows.length)
 
-/-- the same repair for `tx_delete` -/
-def txDeleteApplyFixed (s : State) (tx t : Nat) (cond : Cond) (ids : List Nat) : State × Res :=
+/-- second half of `tx_delete` AS THE CODE IS (fcb86137), the same way -/
+def txDeleteApply (s : State) (tx t : Nat) (cond : Cond) (ids : List Nat) : State × Res :=
   match s.tables t with
   | none => (s, .err .tableNotFound)
   | some T =>
